@@ -1,23 +1,35 @@
 import GoLevel.Driver.Key
+import GoLevel.Driver.Iter
+import GoLevel.Driver.Journal
+import GoLevel.Driver.Bloom
 /-! `gldriver`: reads one operation per line on stdin, answers one line per operation on stdout.
 The first token selects the layer.  Core-only (must link). -/
 open GoLevel GoLevel.Driver
 
-def dispatch (line : String) : String :=
-  let toks := (line.splitOn " ").filter (· ≠ "")
-  let r : Option String := match toks with
-    | "key" :: rest => handleKey rest
-    | _ => none
-  r.getD "bad-op"
+structure DState where
+  it : ItState := .none
 
-partial def loop (h : IO.FS.Stream) (out : IO.FS.Stream) : IO Unit := do
+def dispatch (st : DState) (line : String) : DState × String :=
+  let toks := (line.splitOn " ").filter (· ≠ "")
+  match toks with
+  | "key" :: rest => (st, (handleKey rest).getD "bad-op")
+  | "jrn" :: rest => (st, (handleJrn rest).getD "bad-op")
+  | "bloom" :: rest => (st, (handleBloom rest).getD "bad-op")
+  | "it" :: rest =>
+    match handleIt st.it rest with
+    | some (it', out) => ({ st with it := it' }, out)
+    | none => (st, "bad-op")
+  | _ => (st, "bad-op")
+
+partial def loop (h : IO.FS.Stream) (out : IO.FS.Stream) (st : DState) : IO Unit := do
   let line ← h.getLine
   if line.isEmpty then return ()
   let l := line.trimAscii.toString
-  out.putStrLn (dispatch l)
-  loop h out
+  let (st', r) := dispatch st l
+  out.putStrLn r
+  loop h out st'
 
 def main : IO Unit := do
   let out ← IO.getStdout
-  loop (← IO.getStdin) out
+  loop (← IO.getStdin) out {}
   out.flush
